@@ -128,6 +128,21 @@ def nest_msgpack(depth, shape="array", scalar=b"\xc0"):
     return bytes(out) + scalar + bytes(tail)
 
 
+def toml_dotted_nest(levels, segments=79):
+    """TOML whose table nesting multiplies: `levels` nested inline tables, each reached through a dotted key of `segments`
+    parts (the toml crate bounds each of the two separately, not their product)."""
+    key = b".".join([b"a"] * segments)
+    s = b"1"
+    for _ in range(levels):
+        s = b"{ " + key + b" = " + s + b" }"
+    return b"x = " + s + b"\n"
+
+
+def is_toml_dotted_nest(data):
+    """The family above (known finding K-C04/K-C18-toml-dotted-keys-stack-overflow)."""
+    return data.startswith(b"x = { a.a.a.a.") and data.rstrip().endswith(b"}") and data.count(b"{") >= 8
+
+
 def detection_stress():
     """Inputs chosen for C09: first bytes that are MessagePack collection
     markers, truncated collections, text starting with U+0700..U+07FF, inputs
